@@ -37,6 +37,7 @@ type vxJobFan struct {
 	OrigPwm  int    `json:"origPwm"`
 	NoEnable bool   `json:"noEnable,omitempty"`
 	Stored   bool   `json:"stored"`
+	MaxPwm   int    `json:"maxPwm,omitempty"` // configured maxPwm (0 = not configured)
 }
 
 type vxFault struct {
@@ -63,7 +64,7 @@ type vxJob struct {
 func (j vxJob) Describe() string {
 	var fs []string
 	for _, f := range j.Fans {
-		fs = append(fs, fmt.Sprintf("%s(%s mode=%d pwm=%d noEnable=%v stored=%v)", f.ID, f.Kind, f.OrigMode, f.OrigPwm, f.NoEnable, f.Stored))
+		fs = append(fs, fmt.Sprintf("%s(%s mode=%d pwm=%d noEnable=%v stored=%v maxPwm=%d)", f.ID, f.Kind, f.OrigMode, f.OrigPwm, f.NoEnable, f.Stored, f.MaxPwm))
 	}
 	return fmt.Sprintf("fans=%v sensor=%s curve=%s faults=%v", fs, j.Sensor, j.Curve, j.Faults)
 }
@@ -114,6 +115,9 @@ func vxBuildWorld(job vxJob) *vxWorld {
 	for i, f := range job.Fans {
 		d := &vxFanDev{spec: f}
 		fmt.Fprintf(&y, "  - id: %s\n    curve: vxcurve\n    neverStop: false\n    controlAlgorithm: direct\n", f.ID)
+		if f.MaxPwm > 0 {
+			fmt.Fprintf(&y, "    maxPwm: %d\n", f.MaxPwm)
+		}
 		switch f.Kind {
 		case "hwmon":
 			ch := i + 1
@@ -321,7 +325,7 @@ func TestVX_daemonChild(t *testing.T) {
 			if k, ok := active[role]; ok && role != "" {
 				vxAppend(events, fmt.Sprintf("%s fault %s:%s on %s %s=%d", stamp(), role, k, kind, filepath.Base(path), value))
 				switch k {
-				case "error":
+				case "error", "nostart":
 					return &env.Result{Val: -1, Err: env.ErrNoEnt(path)}
 				case "ignored":
 					return &env.Result{}
@@ -343,6 +347,24 @@ func TestVX_daemonChild(t *testing.T) {
 			return nil
 		}
 		setCmdModes := func() {
+			// kind "nostart": the command cannot be started at all (x bit lost)
+			x := map[string]os.FileMode{"sensor": 0755, "rpm": 0755, "pwmread": 0755, "pwmwrite": 0755}
+			for c, k := range active {
+				if k == "nostart" {
+					x[c] = 0644
+				}
+			}
+			for i := range w.fans {
+				if w.fans[i].cmdMode != "" {
+					base := filepath.Dir(w.fans[i].cmdMode)
+					os.Chmod(filepath.Join(base, "rpm.sh"), x["rpm"])
+					os.Chmod(filepath.Join(base, "get.sh"), x["pwmread"])
+					os.Chmod(filepath.Join(base, "set.sh"), x["pwmwrite"])
+				}
+			}
+			if w.sensMode != "" {
+				os.Chmod(filepath.Join(job.Dir, "sensor.sh"), x["sensor"])
+			}
 			var words []string
 			for c, k := range active {
 				words = append(words, c+":"+k)
